@@ -19,6 +19,7 @@ inductive Tk where
   | plus | slash | andand | barbar | lparen | rparen | comma | lbrace | rbrace
   | op (o : CondOp)
   | text (lexeme : String)   -- a `Text` token of a recipe body
+  | comment (lexeme : List Char)   -- `# …` up to the end of the line
   | other (kind : String)
   deriving DecidableEq, Repr, Inhabited
 
